@@ -23,8 +23,9 @@ func (sl *streamLogger) Read(p []byte) (n int, err error) {
 	n, err = sl.socket.Read(p)
 	if n > 0 {
 		sl.logFile.Write([]byte("RECV:\n")) // Prefix
-		if n, err := sl.logFile.Write(p[:n]); err != nil {
-			return n, err
+		// n is the number of bytes taken from the socket: a failing log file must not change it
+		if _, lerr := sl.logFile.Write(p[:n]); lerr != nil {
+			return n, lerr
 		}
 		sl.logFile.Write([]byte("\n\n")) // Separator
 	}
